@@ -414,6 +414,7 @@ func (P *Prog) isStringsIndexOf(fc *factCtx, id *ast.Ident, S ast.Expr) bool {
 	}
 	want := idExpr(fc.info, S)
 	n, okAll := 0, true
+	var defEnd token.Pos
 	ast.Inspect(fc.fn, func(nd ast.Node) bool {
 		if as, ok := nd.(*ast.AssignStmt); ok {
 			for i, l := range as.Lhs {
@@ -429,6 +430,7 @@ func (P *Prog) isStringsIndexOf(fc *factCtx, id *ast.Ident, S ast.Expr) bool {
 					continue
 				}
 				n++
+				defEnd = as.End()
 				if len(as.Lhs) != len(as.Rhs) {
 					okAll = false
 					continue
@@ -447,9 +449,22 @@ func (P *Prog) isStringsIndexOf(fc *factCtx, id *ast.Ident, S ast.Expr) bool {
 		}
 		return true
 	})
-	// the sliced string must not have been reassigned between (S is usually a parameter
-	// re-sliced by this very statement, which is after the Index call)
-	return n == 1 && okAll
+	if n != 1 || !okAll {
+		return false
+	}
+	// the sliced string must not have been reassigned between the Index call and the slice
+	// (S is usually re-sliced by the very statement that holds the slice expression: that
+	// assignment takes effect after the expression is evaluated, so the window ends where the
+	// statement begins; inside a loop the statement still counts, through assignedBetween's
+	// loop clause)
+	to := fc.use
+	for _, nd := range fc.path {
+		if st, isStmt := nd.(ast.Stmt); isStmt {
+			to = st.Pos()
+			break
+		}
+	}
+	return !fc.assignedBetween(objsIn(fc.info, S), defEnd, to, nil)
 }
 
 func (P *Prog) sortLessProver(path []ast.Node, info *types.Info, X, I ast.Expr) (string, bool) {
@@ -538,6 +553,10 @@ func (P *Prog) sortLessProver(path []ast.Node, info *types.Info, X, I ast.Expr) 
 			for _, nm := range f.Names {
 				if info.Defs[nm] == info.Uses[id] {
 					// the slice must not be reassigned inside the callback
+					lfc := &factCtx{info: info, path: path, fn: fl, use: path[0].Pos()}
+					if lfc.assignedBetween(objsIn(info, X), fl.Pos(), fl.End(), nil) {
+						return "", false
+					}
 					return "index is a parameter of the less callback of sort.Slice* over the same slice", true
 				}
 			}
